@@ -463,4 +463,168 @@ theorem climb_complete {cg : Bytes → Except Err (Parsed α)} {N : Nat} (hcgc :
     rw [← hne]
     simp only [Tree.flatten, List.append_assoc]
 
+theorem compileTokens_complete {cg : Bytes → Except Err (Parsed α)} {N : Nat} (hcgc : HcgC A cg N)
+    (t : Tree) (hwp : WellPrec orderOfOps t) (hd : Deep tok t) (hl : Lits A t) (hg : GrpLt N t.flatten) :
+    ∃ e, compileTokens A cg t.flatten = .ok (t, e) := by
+  have h0 : climb A cg 1 [] (t, Expr.val A.zero) [] = .ok ((t, simplify A (Expr.val A.zero)), []) := rfl
+  obtain ⟨a, ea, toksA, f2, e2', hne, hcl⟩ := climb_complete A hcgc t hwp hd hl hg [] [] t [] 1 _ _ h0
+    (by intro x _ l hl'; rw [level_empty] at hl'; cases hl')
+    (by intro x y _ hy; simp [headLvl] at hy)
+  rw [List.append_nil] at hne
+  have := climb_suff A (toksA.length + 1) _ _ _ _ _ hcl (Nat.lt_succ_self _)
+  simp only [compileTokens, hne, this]
+  exact ⟨_, rfl⟩
+
+/-! ### the tokenizer: a group's text is shorter than the formula -/
+
+def TInv (st : TokSt) (n : Nat) : Prop :=
+  (∀ tk ∈ st.ret, tk.t = .group → tk.val.length < n) ∧
+  st.sb.length + (if st.parens > 0 then 1 else 0) ≤ n
+
+theorem ret_ext {P : Token → Prop} {ret : List Token} {x : Token} (h : ∀ tk ∈ ret, P tk) (hx : P x) :
+    ∀ tk ∈ ret ++ [x], P tk := by
+  intro tk hm
+  rcases List.mem_append.mp hm with hm | hm
+  · exact h tk hm
+  · rw [List.mem_singleton.mp hm]; exact hx
+
+theorem tokStep_inv {st st' : TokSt} {r : UInt8} {s : Bytes} {n : Nat} (hi : TInv st n)
+    (h : tokStep st r s = .ok st') : TInv st' (n + 1) := by
+  obtain ⟨hret, hsb⟩ := hi
+  have weaken : ∀ tk ∈ st.ret, tk.t = .group → tk.val.length < n + 1 :=
+    fun tk hm hg => Nat.lt_succ_of_lt (hret tk hm hg)
+  unfold tokStep at h
+  repeat' split at h
+  all_goals (cases h)
+  all_goals (try simp only [Bool.and_eq_true, decide_eq_true_eq, Bool.not_eq_true'] at *)
+  all_goals refine ⟨?_, ?_⟩
+  all_goals (try simp only)
+  all_goals (try split)
+  all_goals first
+    | exact weaken
+    | (refine ret_ext weaken ?_; intro _; show st.sb.length < n + 1; split at hsb <;> omega)
+    | exact ret_ext weaken (by intro hg; cases hg)
+    | exact ret_ext (ret_ext weaken (by intro hg; cases hg)) (by intro hg; cases hg)
+    | ((try simp only [List.length_append, List.length_cons, List.length_nil] at hsb ⊢)
+       (try split at hsb) <;> (try split) <;> omega)
+
+theorem tokLoop_inv : ∀ (s : Bytes) (st st' : TokSt) (n : Nat), TInv st n → tokLoop s st = .ok st' →
+    TInv st' (n + s.length) := by
+  intro s
+  induction s with
+  | nil => intro st st' n hi h; simp only [tokLoop] at h; injection h with h; subst h; exact hi
+  | cons r rest ih =>
+    intro st st' n hi h
+    simp only [tokLoop] at h
+    cases hs : tokStep st r (r :: rest) with
+    | error e => rw [hs] at h; cases h
+    | ok st1 =>
+      rw [hs] at h
+      have := ih st1 st' (n + 1) (tokStep_inv hi hs) h
+      simp only [List.length_cons]
+      rw [show n + (rest.length + 1) = n + 1 + rest.length by omega]
+      exact this
+
+theorem tok_group_len {s : Bytes} {toks : List Token} (h : tok s = some toks) : GrpLt s.length toks := by
+  simp only [tok] at h
+  cases ht : tokenize s with
+  | error e => rw [ht] at h; cases h
+  | ok l =>
+    rw [ht] at h
+    injection h with h
+    subst h
+    simp only [tokenize] at ht
+    cases hl : tokLoop s ⟨[], [], 0, 0⟩ with
+    | error e => rw [hl] at ht; cases ht
+    | ok st =>
+      rw [hl] at ht
+      simp only at ht
+      have inv := tokLoop_inv s _ st 0 ⟨(by intro tk hm; cases hm), (by simp)⟩ hl
+      simp only [Nat.zero_add] at inv
+      split at ht
+      · cases ht
+      · injection ht with ht
+        subst ht
+        split
+        · exact inv.1
+        · exact ret_ext inv.1 (by intro hg; cases hg)
+
+theorem compileF_complete : ∀ (f : Nat) (s : Bytes) (t : Tree), s.length < f → tok s = some t.flatten →
+    WellPrec orderOfOps t → Deep tok t → Lits A t → ∃ e, compileF A f s = .ok (t, e) := by
+  intro f
+  induction f with
+  | zero => intro s t h; omega
+  | succ f ih =>
+    intro s t hlen htok hwp hd hl
+    have hg := tok_group_len htok
+    have hcgc : HcgC A (compileF A f) s.length := by
+      intro s0 e0 hl0 ht0 hw0 hd0 hll0
+      exact ih s0 e0 (by omega) ht0 hw0 hd0 hll0
+    obtain ⟨e, he⟩ := compileTokens_complete A hcgc t hwp hd hl hg
+    simp only [tok] at htok
+    cases ht : tokenize s with
+    | error err => rw [ht] at htok; cases htok
+    | ok toks =>
+      rw [ht] at htok
+      injection htok with htok
+      subst htok
+      simp only [compileF, ht]
+      exact ⟨e, he⟩
+
+/-! ### replacing constants by variables bound to the same value (and back) -/
+
+/-- `t'` is `t` with literal leaves replaced (anywhere, also inside groups, whose text then
+    changes too) by literals that denote, under `b'`, the value the old ones denote under `b`. -/
+inductive LitSubst (b b' : Binding α) : Tree → Tree → Prop
+  | lit (v v' : Bytes) (a a' : Atom α) : classify A v = some a → classify A v' = some a' →
+      a.eval b = a'.eval b' → LitSubst b b' (.lit v) (.lit v')
+  | grp (s s' : Bytes) (e e' : Tree) : LitSubst b b' e e' → LitSubst b b' (.grp s e) (.grp s' e')
+  | un (m : Bytes) (e e' : Tree) : LitSubst b b' e e' → LitSubst b b' (.un m e) (.un m e')
+  | bin (i : Bool) (op : Bytes) (l l' r r' : Tree) : LitSubst b b' l l' → LitSubst b b' r r' →
+      LitSubst b b' (.bin i op l r) (.bin i op l' r')
+
+variable {A}
+
+theorem LitSubst.eval_eq {b b' : Binding α} {t t' : Tree} (h : LitSubst A b b' t t') :
+    t.eval A (classify A) b = t'.eval A (classify A) b' := by
+  induction h with
+  | lit v v' a a' h1 h2 h3 => simp only [Tree.eval, h1, h2, h3]
+  | grp s s' e e' _ ih => simp only [Tree.eval, ih]
+  | un m e e' _ ih => simp only [Tree.eval, ih]
+  | bin i op l l' r r' _ _ ihl ihr => simp only [Tree.eval, ihl, ihr]
+
+theorem LitSubst.shape {b b' : Binding α} {t t' : Tree} (h : LitSubst A b b' t t') :
+    t'.isAtom = t.isAtom ∧ t'.rootLvl orderOfOps = t.rootLvl orderOfOps ∧
+    t'.startsWithGroup = t.startsWithGroup := by
+  induction h with
+  | lit v v' a a' _ _ _ => exact ⟨rfl, rfl, rfl⟩
+  | grp s s' e e' _ _ => exact ⟨rfl, rfl, rfl⟩
+  | un m e e' _ _ => exact ⟨rfl, rfl, rfl⟩
+  | bin i op l l' r r' _ _ ihl _ => exact ⟨rfl, rfl, by simp only [Tree.startsWithGroup, ihl.2.2]⟩
+
+theorem LitSubst.wp {b b' : Binding α} {t t' : Tree} (h : LitSubst A b b' t t')
+    (hwp : WellPrec orderOfOps t) : WellPrec orderOfOps t' := by
+  induction h with
+  | lit v v' a a' _ _ _ => exact WellPrec.lit _
+  | grp s s' e e' _ ih => cases hwp with | grp _ _ h0 => exact WellPrec.grp _ _ (ih h0)
+  | un m e e' hs ih =>
+    cases hwp with
+    | un _ _ hat h0 => exact WellPrec.un _ _ (by rw [hs.shape.1]; exact hat) (ih h0)
+  | bin i op l l' r r' hl hr ihl ihr =>
+    cases hwp with
+    | bin _ _ _ _ lv hwl hwr hlv hleft hright himp =>
+      refine WellPrec.bin _ _ _ _ lv (ihl hwl) (ihr hwr) hlv ?_ ?_ ?_
+      · intro x hx; rw [hl.shape.2.1] at hx; exact hleft x hx
+      · intro x hx; rw [hr.shape.2.1] at hx; exact hright x hx
+      · intro hi; rw [hr.shape.2.2]; exact himp hi
+
+theorem LitSubst.lits {b b' : Binding α} {t t' : Tree} (h : LitSubst A b b' t t') : Lits A t' := by
+  induction h with
+  | lit v v' a a' _ h2 _ => simp only [Lits, Tree.allLits, h2]; rfl
+  | grp s s' e e' _ ih => exact ih
+  | un m e e' _ ih => exact ih
+  | bin i op l l' r r' _ _ ihl ihr =>
+    simp only [Lits, Tree.allLits, Bool.and_eq_true]
+    exact ⟨ihl, ihr⟩
+
 end Rare.C19
